@@ -70,7 +70,51 @@ def cross(jobs, args):
             print(name, " ".join(f"{k}:{v}" for k, v in res.items() if v != "-"), flush=True)
     json.dump(matrix, open(os.path.join(VD, "seeded", "MATRIX.json"), "w"), indent=1, sort_keys=True)
 
+def run_harm(patch, props):
+    """apply one behaviour-preserving change and run EVERY claimed check on it: any VIOLATION is a false alarm"""
+    d = tempfile.mkdtemp(prefix="govc-harm-")
+    res = {}
+    try:
+        repo = os.path.join(d, "repo")
+        subprocess.run(["rsync", "-a", "--exclude", ".git", REPO + "/", repo + "/"], check=True)
+        r = subprocess.run(["patch", "-p1", "-s", "-d", repo, "-i", patch], capture_output=True, text=True)
+        if r.returncode != 0:
+            return patch, {"error": "patch does not apply"}
+        for prop in props:
+            out = os.path.join(d, "out-" + prop)
+            p = subprocess.run([os.path.join(VD, "bin", "govc"), "check", "-repo", repo, "-out", out, prop],
+                               capture_output=True, text=True, env=dict(os.environ, VERIF_DIR=VD))
+            if "VIOLATION property=" in p.stdout or p.returncode == 1:
+                res[prop] = "VIOLATION: " + "; ".join(l.split(" ", 1)[1].split("::")[-1] for l in p.stdout.splitlines() if l.startswith("FAILED-OBLIGATION "))[:600]
+            elif "UNDECIDED property=" in p.stdout:
+                res[prop] = "undecided: " + "; ".join(l.split(" ", 2)[2][:160] for l in p.stdout.splitlines() if l.startswith("UNDECIDED property="))[:500]
+            elif p.returncode != 0:
+                res[prop] = "error(%d)" % p.returncode
+            shutil.rmtree(out, ignore_errors=True)
+        return patch, res
+    finally:
+        shutil.rmtree(d, ignore_errors=True)
+
+def harm(jobs, root):
+    man = json.load(open(os.path.join(VD, "MANIFEST.json")))
+    props = [c["property_id"] for c in man["checks"]]
+    patches = sorted(glob.glob(os.path.join(root, "**", "patch.diff"), recursive=True) + glob.glob(os.path.join(root, "**", "*.patch"), recursive=True))
+    results = {}
+    with concurrent.futures.ThreadPoolExecutor(max_workers=jobs) as ex:
+        for patch, res in ex.map(lambda pt: run_harm(pt, props), patches):
+            results[patch] = res
+            bad = {k: v for k, v in res.items() if v.startswith("VIOLATION") or v.startswith("error")}
+            und = [k for k, v in res.items() if v.startswith("undecided")]
+            print(("FALSE-ALARM " if bad else "quiet       ") + patch + ("  undecided: " + " ".join(und) if und else ""), flush=True)
+            for k, v in bad.items():
+                print("    " + k + " " + v, flush=True)
+    json.dump(results, open(os.path.join(VD, "selftest", "harm_results.json"), "w"), indent=1, sort_keys=True)
+
 def main():
+    if "--harmdir" in sys.argv:
+        jobs = int(sys.argv[sys.argv.index("--jobs") + 1]) if "--jobs" in sys.argv else 4
+        harm(jobs, sys.argv[sys.argv.index("--harmdir") + 1])
+        return
     if "--cross" in sys.argv:
         jobs = int(sys.argv[sys.argv.index("--jobs") + 1]) if "--jobs" in sys.argv else 4
         cross(jobs, [a for a in sys.argv[1:] if not a.startswith("--") and not a.isdigit()])
